@@ -340,4 +340,146 @@ Proof.
     + cbn [spx]. apply Hfin. unfold data_post. split; [reflexivity|]. split; [exact Hx2|]. split; [apply in_rel_refl|reflexivity].
 Qed.
 
+(* ------------------------------------------------------------------ the receive loop *)
+Lemma x_state ti tm p q (s s' : vsock) :
+  vs_x ti tm p q s -> v_rx s' = v_rx s -> v_tx s' = v_tx s -> v_segs s' = v_segs s -> v_ss s' = v_ss s ->
+  v_rtte s' = v_rtte s -> v_recovery s' = v_recovery s -> v_opts s' = v_opts s -> v_now s' = v_now s ->
+  (v_state s' <> Closed -> v_state s <> Closed) -> vs_x ti tm p q s'.
+Proof.
+  intros [H1 [H2 H3]] E1 E2 E3 E4 E5 E6 E7 E8 Hst. split.
+  - eapply inv_update; [exact H1|..]; rewrite ?E3, ?E4, ?E5, ?E6; try assumption; try reflexivity; try lia;
+      apply (inv_parts _ _ _ _ H1).
+  - unfold sx. rewrite E3, E8. auto.
+Qed.
+
+Lemma x_update_segs ti tm p q (s s' : vsock) :
+  vs_x ti tm p q s -> v_rx s' = v_rx s -> v_tx s' = v_tx s -> v_opts s' = v_opts s -> v_state s' = v_state s ->
+  seg_inv (v_segs s') -> ss_removed (v_segs s') = ss_removed (v_segs s) ->
+  ss_offset (v_segs s') = ss_offset (v_segs s) ->
+  Forall2 seg_ev (ss_segs (v_segs s)) (ss_segs (v_segs s')) ->
+  v_ss s' = v_ss s -> v_rtte s' = v_rtte s -> dup_ok (v_recovery s') -> v_now s' = v_now s ->
+  vs_x ti tm p q s'.
+Proof.
+  intros [H1 [H2 H3]] E1 E2 E3 E4 Hsi Hrm Hof Hev E5 E6 Hd E7. split.
+  - eapply inv_update; [exact H1|..]; rewrite ?E4, ?E5, ?E6; try assumption; try reflexivity; try lia; auto;
+      apply (inv_parts _ _ _ _ H1).
+  - unfold sx. rewrite E7. split; [eapply aux_ev; eauto|exact H3].
+Qed.
+
+(* the FIN that the channel-closed arm of the loop may send must be pipe-safe too *)
+Definition fin_ps (s : vsock) : Prop :=
+  v_inbox_closed s = true ->
+  forall c, fin_cand s = Some c -> seq_sub c (v_last_sent_seq_nr s) = 1 -> ps_for c (v_segs s).
+
+Definition rl_inv ti tm q p (s : vsock) : Prop :=
+  vs_x ti tm p q s /\ ef strict s /\ v_state s <> SynReceived /\
+  ps_for (v_last_sent_seq_nr s) (v_segs s) /\ fin_ps s.
+
+Definition loop_rel (s s' : vsock) : Prop :=
+  v_opts s' = v_opts s /\ v_inbox_closed s' = v_inbox_closed s /\ v_emsg_limit s' = v_emsg_limit s /\
+  v_now s' = v_now s /\ v_restart s' = v_restart s /\ v_env_now s' = v_env_now s /\
+  ss_mono (v_ss s) (v_ss s').
+
+Lemma loop_rel_refl s : loop_rel s s.
+Proof. unfold loop_rel, ss_mono. repeat (split; [reflexivity|]). lia. Qed.
+
+Lemma loop_rel_trans a b c : loop_rel a b -> loop_rel b c -> loop_rel a c.
+Proof.
+  unfold loop_rel. intros (A1&A2&A3&A4&A5&A6&A7) (B1&B2&B3&B4&B5&B6&B7).
+  repeat (split; [congruence|]). eapply ss_mono_trans; eauto.
+Qed.
+
+Lemma msg_loop_rel s s' : msg_rel s s' -> loop_rel s s'.
+Proof. unfold msg_rel, loop_rel. tauto. Qed.
+
+Lemma ctl_loop_rel s s' : ctl_rel s s' -> loop_rel s s'.
+Proof.
+  intros (((C1&C2&C3&C4&C5&C6&C7&C8&C9&C10&C11&C12&C13&C14) & Hf & Hr) & Hq & He).
+  unfold loop_rel, ss_mono. rewrite C4. repeat (split; [assumption|]). lia.
+Qed.
+
+Definition rl_post ti tm q (s s' : vsock) (res : on_ack_result * bool) : Prop :=
+  vs_x ti tm (ar_acked_bytes (fst res)) q s' /\ acc_ok (fst res) /\ ef strict s' /\
+  ps_for (v_last_sent_seq_nr s') (v_segs s') /\ loop_rel s s'.
+
+Lemma fin_cand_transition (s : vsock) f :
+  our_fin_if_unacked (v_state (transition_to_fin_wait_1 s)) = Some f -> fin_cand s = Some f.
+Proof.
+  unfold transition_to_fin_wait_1, fin_cand. destruct (v_state s) eqn:E; vsimpl; rewrite ?E; cbn [our_fin_if_unacked]; intro H; first [exact H|discriminate H].
+Qed.
+
+Lemma transition_x ti tm p q (s : vsock) :
+  vs_x ti tm p q s ->
+  vs_x ti tm p q (transition_to_fin_wait_1 s) /\
+  v_segs (transition_to_fin_wait_1 s) = v_segs s /\
+  v_last_sent_seq_nr (transition_to_fin_wait_1 s) = v_last_sent_seq_nr s /\
+  v_sends (transition_to_fin_wait_1 s) = v_sends s /\
+  loop_rel s (transition_to_fin_wait_1 s).
+Proof.
+  intro Hx. unfold transition_to_fin_wait_1.
+  destruct (v_state s) eqn:Est;
+    (split; [first [exact Hx|eapply x_state; [exact Hx|..]; vsimpl; try reflexivity; rewrite Est; intros _; discriminate]|]);
+    vsimpl; (split; [reflexivity|]); (split; [reflexivity|]); (split; [reflexivity|]);
+    unfold loop_rel, ss_mono; vsimpl; repeat (split; [reflexivity|]); lia.
+Qed.
+
+Lemma ef_rel (s s' : vsock) : (emsg_free s -> emsg_free s') -> ef strict s -> ef strict s'.
+Proof. unfold ef. auto. Qed.
+
+Lemma recv_loop_x ti tm q : forall fuel (s : vsock) acc,
+  (length (v_inbox s) < length fuel)%nat -> acc_ok acc -> rl_inv ti tm q (ar_acked_bytes acc) s ->
+  spx strict (recv_loop cci fuel s acc) (rl_post ti tm q s) (vs_xe ti tm q).
+Proof.
+  induction fuel as [|m0 fuel IH]; intros s acc Hlen Hacc (Hx & Hef & Hst & Hps & Hfp);
+    [cbn [length] in Hlen; lia|].
+  cbn [recv_loop]. destruct (v_inbox s) as [|m rest] eqn:Ei.
+  - (* the inbox is drained *)
+    destruct (v_inbox_closed s) eqn:Eic.
+    + destruct (transition_x _ _ _ _ _ Hx) as (Hx1 & Hs1 & Hl1 & Hsd1 & Hr1).
+      set (s1 := transition_to_fin_wait_1 s) in *.
+      eapply spx_bind with (Q1 := fun s2 (_ : bool) => ctl_rel s1 s2 /\
+         (v_last_sent_seq_nr s2 = v_last_sent_seq_nr s1 \/
+          exists f, our_fin_if_unacked (v_state s1) = Some f /\ seq_sub f (v_last_sent_seq_nr s1) = 1 /\
+                    v_last_sent_seq_nr s2 = f)).
+      * eapply spx_weaken; [apply (maybe_send_fin_x strict)|auto|].
+        intros s2 [[[Hcore _] _] _]. eapply x_xe, x_same_core; eauto.
+      * intros s2 b [Hc Hls]. cbn [spx]. unfold rl_post. cbn [fst].
+        pose proof Hc as [[Hcore [Hfr _]] _].
+        pose proof (x_same_core _ _ _ _ _ _ Hx1 Hcore) as Hx2.
+        split; [eapply x_state; [exact Hx2|..]; vsimpl; try reflexivity; congruence|].
+        split; [exact Hacc|].
+        split.
+        { unfold ef, emsg_free in *. vsimpl. intro Hs. apply Hfr. unfold emsg_free.
+          rewrite Hsd1. unfold s1, transition_to_fin_wait_1. destruct (v_state s); vsimpl; apply Hef; exact Hs. }
+        split.
+        { vsimpl. destruct Hcore as (_ & _ & E3 & _). rewrite E3, Hs1.
+          destruct Hls as [->|(f & Hf1 & Hf2 & ->)]; [rewrite Hl1; exact Hps|].
+          apply Hfp; [exact Eic|apply fin_cand_transition; exact Hf1|rewrite <- Hl1; exact Hf2]. }
+        eapply loop_rel_trans; [exact Hr1|]. eapply loop_rel_trans; [apply ctl_loop_rel; exact Hc|].
+        unfold loop_rel, ss_mono; vsimpl; repeat (split; [reflexivity|]); lia.
+    + cbn [spx]. unfold rl_post. cbn [fst]. split; [exact Hx|]. split; [exact Hacc|]. split; [exact Hef|].
+      split; [exact Hps|]. exact (loop_rel_refl s).
+  - (* one more message *)
+    assert (Hx0 : vs_x ti tm (ar_acked_bytes acc) q (set_inbox s rest)) by exact Hx.
+    eapply spx_bind; [apply process_incoming_message_x; [exact Hx0|exact Hst|exact Hps]|].
+    intros s1 r (Hx1 & Hok1 & Hm1 & Hst1 & Hall).
+    assert (Hacc1 : acc_ok (result_update acc r)) by (apply acc_ok_update; assumption).
+    assert (Hx1' : vs_x ti tm (ar_acked_bytes (result_update acc r)) q s1) by exact Hx1.
+    pose proof Hm1 as (M1&M2&M3&M4&M5&M6&M7&M8&M9&M10&M11). vsimpl.
+    assert (Hef1 : ef strict s1) by (eapply ef_rel; [exact M10|exact Hef]).
+    assert (Hps1 : ps_for (v_last_sent_seq_nr s1) (v_segs s1)) by (rewrite M7; apply Hall; exact Hps).
+    assert (Hrel : loop_rel s s1) by (apply (msg_loop_rel (set_inbox s rest)); exact Hm1).
+    destruct (_ || _).
+    + cbn [spx]. unfold rl_post. cbn [fst]. auto.
+    + eapply spx_weaken; [apply IH| |auto].
+      * rewrite M2. cbn [length] in Hlen. lia.
+      * exact Hacc1.
+      * split; [exact Hx1'|]. split; [exact Hef1|]. split; [exact Hst1|]. split; [exact Hps1|].
+        intros Hc c Hfc Hsub. rewrite M3 in Hc. rewrite M7 in Hsub. apply Hall.
+        apply Hfp; [exact Hc| |exact Hsub].
+        destruct M11 as [M11|M11]; [congruence|]. unfold fin_cand in M11, Hfc |- *. vsimpl. congruence.
+      * intros s' res (A1 & A2 & A3 & A4 & A5). unfold rl_post. repeat (split; [assumption|]).
+        eapply loop_rel_trans; eauto.
+Qed.
+
 End PollIn.
